@@ -34,6 +34,7 @@ R.contract(
 
 # ---- the grammar object ------------------------------------------------------------------------------------
 R.cls("TypeSet", fields={})
+R.contract("TypeSet.__len__", params=dict(self="TypeSet"), returns="int", pure=True, allocates=False, ensures={"nonneg": "result >= 0"})
 R.contract("TypeSet.__contains__", params=dict(self="TypeSet", x="~Type"), returns="bool", pure=True, allocates=False,
            note="membership in one of the grammar's symbol sets (the sets are read-only during synthesis: C10)")
 R.classes["Grammar"].fields.update({
@@ -164,4 +165,41 @@ R.contract(
     props=["C03"],
     note="a decider object exists only for feasible limits: an infeasible limit is rejected by the constructor (up-front), "
     "never midway through a program",
+)
+
+# ---- the weight-aware chooser (C19) -----------------------------------------------------------------------------------
+R.cls("ProgressivelyTerminalDecider", bases=["BaseDecider"], fields={}, file=INI)
+R.contract(
+    "Grammar.get_weights",
+    params=dict(self="Grammar"),
+    returns="dict[~Type,float]",
+    ensures={"fresh": "fresh(result)", "nonneg": "forall(0, len(keysof(result)), lambda i: result[keysof(result)[i]] >= 0)"},
+    verify=False,
+    note="declared production weights as extract_grammar normalised them: non-negative (C19's first half, decided by the bounded driver)",
+)
+R.contract("Grammar.get_max_node_depth", params=dict(self="Grammar"), returns="int", ensures={"nonneg": "result >= 0"}, allocates=False, verify=False,
+           note="maximum table distance over the registered nodes (only its sign matters to the chooser)")
+R.contract(
+    "ProgressivelyTerminalDecider.choose_production_alternatives",
+    file=INI,
+    params=dict(self="ProgressivelyTerminalDecider", **CHOOSE_PARAMS),
+    returns="~Type",
+    requires={
+        "some_alternative": "len(alternatives) >= 1",
+        "depth_nonneg": "ctx.depth >= 0",
+        "start_registered": "self.grammar.starting_symbol in self.grammar.distanceToTerminal",
+        "table_nonneg": "self.grammar.distanceToTerminal[self.grammar.starting_symbol] >= 0",
+        "alternatives_registered": "forall(0, len(alternatives), lambda k: gdist_defined(self.grammar, alternatives[k]))",
+    },
+    ensures={
+        "is_an_alternative": "exists(0, len(alternatives), lambda k: result == alternatives[k])",
+    },
+    proves={
+        "zero_weight_not_chosen": "exists(0, len(alternatives), lambda k: result == alternatives[k] and "
+        "(declared[k] > 0 or trunc(psum(weights, len(weights)) * 100000) == 0))",
+    },
+    modifies=["self.random.*"],
+    props=["C19", "C01"],
+    note="C19, second half: the chosen production has a positive declared weight, unless the total effective weight is below the "
+    "chooser's resolution of 1e-5 (stated over the function's own `declared` / `weights` lists)",
 )
